@@ -10,6 +10,7 @@ import (
 	"fmt"
 	"sync"
 	"sync/atomic"
+	"verif/memkv"
 
 	aclu "github.com/xuperchain/xupercore/kernel/permission/acl/utils"
 
@@ -40,27 +41,33 @@ func jobChurn(r *ev.Run) {
 	}
 	A := acctName(digitsA)
 	outsider := A + "/" + sn.K(7).Address
-	walks := r.N(200, 2500)
+	walks := r.N(600, 4000)
+	// storage-latency jitter: a reader then really gets descheduled between the look-ups of one
+	// rule read, where the pool roll-back / re-admission batches of the walks land
+	memkv.SetJitter(r.Seed*77+5, 5)
+	defer memkv.SetJitter(0, 0)
 	var done int32
 	var lookups, failed, accepted int64
 	var first string
 	var wg sync.WaitGroup
-	wg.Add(1)
-	go func() {
-		defer wg.Done()
-		for atomic.LoadInt32(&done) == 0 {
-			ok, err := aclu.IdentifyAccount(b.n.Acl, A, []string{outsider})
-			atomic.AddInt64(&lookups, 1)
-			if err != nil {
-				atomic.AddInt64(&failed, 1)
-			}
-			if ok {
-				if atomic.AddInt64(&accepted, 1) == 1 {
-					first = fmt.Sprintf("lookup %d: IdentifyAccount(%s, [%s]) = true, err = %v", atomic.LoadInt64(&lookups), A, outsider, err)
+	for g := 0; g < 3; g++ {
+		wg.Add(1)
+		go func() {
+			defer wg.Done()
+			for atomic.LoadInt32(&done) == 0 {
+				ok, err := aclu.IdentifyAccount(b.n.Acl, A, []string{outsider})
+				atomic.AddInt64(&lookups, 1)
+				if err != nil {
+					atomic.AddInt64(&failed, 1)
+				}
+				if ok {
+					if atomic.AddInt64(&accepted, 1) == 1 {
+						first = fmt.Sprintf("lookup %d: IdentifyAccount(%s, [%s]) = true, err = %v", atomic.LoadInt64(&lookups), A, outsider, err)
+					}
 				}
 			}
-		}
-	}()
+		}()
+	}
 	for i := 0; i < walks; i++ {
 		if err := b.n.Walk(b.n.StateTip(), false); err != nil {
 			break
